@@ -77,7 +77,14 @@ def judge(req, obs):
     def add(oracle, c, ex, ob):
         out.append((oracle, "C05|%s|%s" % (oracle, c), ex, ob))
 
-    # walk the log: hooks between the fetch of authorization A and the next authorization fetch belong to A
+    # attribute each challenge hook to an authorization by *content*: the (type, file name, proof) it was handed is the expected value of
+    # exactly one offered challenge (tokens are per challenge).  No request order is assumed: a daemon may fetch every authorization first and
+    # solve them afterwards.  Ambiguity (colliding 1-character tokens) is resolved by the identifier handed to the hook, then by fetch order.
+    # A hook whose values match no challenge falls back to "the authorization fetched last" and is then reported by the proof-values oracle.
+    expected = []  # (authz id, type, expected values)
+    for aid, a in authzs.items():
+        for c in a["challs"]:
+            expected.append((aid, c["type"], expected_proof(c["type"], c["token"], thumbs.get(a["acct"], "?"))))
     cur = None
     hooks_for = {}
     chall_posts = {}
@@ -85,11 +92,23 @@ def judge(req, obs):
     for e in events:
         if e.get("ev") == "req" and e["kind"] == "authz" and "authz" in e:
             cur = e["authz"]
-            order.append(cur)
+            if cur not in order:
+                order.append(cur)
         elif e.get("ev") == "req" and e["kind"] in ("orderPoll1", "finalize"):
             cur = None
         elif e.get("ev") == "hook" and e.get("tag", "").startswith("chal-"):
-            hooks_for.setdefault(cur, []).append(e)
+            args = dict(x.split("=", 1) for x in e.get("argv", []) if "=" in x)
+            ctype = e["tag"][len("chal-"):]
+            cands = [aid for (aid, t, exp) in expected if t == ctype and args.get("proof") == exp["proof"] and args.get("file_name", "") == exp["file_name"]]
+            cands = sorted(set(cands), key=lambda x: (order.index(x) if x in order else 1 << 30, x))
+            if len(cands) > 1:
+                ident = (args.get("identifier") or "").lower()
+                named = [x for x in cands if authzs[x]["value"].lower() in (ident, ident[2:] if ident.startswith("*.") else ident)]
+                cands = named or cands
+                fresh = [x for x in cands if not any(h["tag"] == e["tag"] for h in hooks_for.get(x, []))]
+                cands = fresh or cands
+            owner = cands[0] if cands else cur
+            hooks_for.setdefault(owner, []).append(e)
         elif e.get("ev") == "req" and e["kind"] == "chall" and not e.get("rejected"):
             chall_posts.setdefault(e.get("authz"), []).append(e)
             hs = hooks_for.get(e.get("authz"), [])
@@ -99,6 +118,30 @@ def judge(req, obs):
                 add("chall-post-after-hooks", shape, "the CA is told a challenge is ready only after its hooks ran", "challenge POST for authorization %s (%s) without a preceding %s hook" % (e.get("authz"), ctype, ctype))
             elif any(h.get("answer", "ok") not in ("ok", "exit:0") for h in mine):
                 add("chall-post-after-hooks", shape + "|hook-failed", "challenge POST only if the hooks succeeded", "challenge POST although hook exited with %s" % [h.get("answer") for h in mine])
+    # a legitimate reason for the attempt to stop before every pending authorization was solved: an unusable authorization, a configured type
+    # that the CA does not offer, or a failing challenge hook.  Without one, every pending authorization must get its hooks.
+    abort_cause = None
+    for aid, a in authzs.items():
+        st = first_status.get(aid)
+        key = ("*." + a["value"]) if a["wildcard"] else a["value"]
+        if st is not None and st not in ("pending", "valid"):
+            abort_cause = "authorization %s is %s" % (aid, st)
+        elif st == "pending" and conf.get(key) not in [c["type"] for c in a["challs"]]:
+            abort_cause = "configured type not offered for authorization %s" % aid
+    for hs_ in hooks_for.values():
+        if any(h.get("answer", "ok") not in ("ok", "exit:0") for h in hs_):
+            abort_cause = "a challenge hook failed"
+    # with a conforming CA, usable authorizations, every configured type on offer and successful hooks the attempt has no reason to stop before
+    # the challenges: an attempt that never gets there (e.g. a request the strict CA must refuse) would otherwise make the checks below vacuous
+    if not abort_cause and not req.get("script"):
+        atts = e1.split_attempts(events)
+        if atts and atts[0].end is not None and not atts[0].end.get("success"):
+            why = [v for e in events if e.get("ev") == "req" for v in (e.get("jws_violations") or [])][:1]
+            add("attempt-reaches-challenges", "kt=%s" % (m.get("kt") or "default"), "a renewal against a conforming CA solves every pending authorization and succeeds",
+                "attempt failed after %d requests%s" % (len(e1.reqs_of(atts[0].events)), (": " + why[0]) if why else ""))
+    for h in hooks_for.get(None, []):
+        add("proof-values", "unattributed|%s" % h["tag"], "every challenge hook is run for an offered challenge of this order with its prescribed values",
+            "hook %s with %s matches no challenge" % (h["tag"], [x for x in h.get("argv", []) if x.startswith(("identifier=", "file_name=", "proof="))]))
     for aid, a in authzs.items():
         key = ("*." + a["value"]) if a["wildcard"] else a["value"]
         want_type = conf.get(key)
@@ -116,6 +159,8 @@ def judge(req, obs):
                 add("hook-type=configured", shape + "|not-offered", "no hook of another type when the configured type (%s) is not offered" % want_type, "hooks %s" % [h["tag"] for h in hs])
             continue
         tags = [h["tag"] for h in hs]
+        if not tags and abort_cause:
+            continue  # the attempt legitimately ended at another authorization: whether this one was reached is not prescribed
         if tags != ["chal-" + want_type]:
             add("hook-type=configured", shape + "|%s" % ("wildcard-authz" if a["wildcard"] else "plain-authz"),
                 "authorization for %s solved with the configured %s hooks (once)" % (key, want_type), "hooks run: %s" % tags)
